@@ -77,6 +77,9 @@ pub struct Value {
     pub map: BTreeMap<u8, Half>,
     pub pair: Option<(Half, Half)>,
     pub variant: Option<Nested>,
+    /// bulk data after the halves (makes the value exceed max_data_size when large)
+    #[serde(default)]
+    pub bulk: Vec<u8>,
 }
 
 #[derive(Serialize, Deserialize)]
@@ -218,6 +221,9 @@ pub struct HalvesScenario {
     /// max_ports of the last (receiving) endpoint
     pub max_ports_last: u32,
     pub rb: u32,
+    /// bytes of bulk data following the halves in the value (> max_data_size 4096: the value is streamed
+    /// through remoc's helper threads, so the schedule is not controlled)
+    pub bulk: usize,
 }
 
 const WAIT: Duration = Duration::from_secs(20);
@@ -532,17 +538,22 @@ async fn exercise_origin(c: Counter, obs: &Shared<Obs>) {
 
 impl Scenario for HalvesScenario {
     fn id(&self) -> String {
-        format!("c05/{:?}/shape{}/hops{}/pre{}/mp{},{}/rb{}", self.kinds, self.shape, self.hops, self.preload as u8, self.max_ports, self.max_ports_last, self.rb)
+        format!("c05/{:?}/shape{}/hops{}/pre{}/mp{},{}/rb{}/bulk{}", self.kinds, self.shape, self.hops, self.preload as u8, self.max_ports, self.max_ports_last, self.rb, self.bulk)
     }
 
     fn watchdog_secs(&self) -> u64 {
         10_000
     }
 
+    fn deterministic(&self) -> bool {
+        self.bulk <= 4000
+    }
+
     fn start(&self, env: Env) -> (BoxFuture<'static, ()>, Judge) {
         let obs = shared(Obs::default());
         let (kinds, shape, hops, preload, max_ports, rb) = (self.kinds.clone(), self.shape, self.hops, self.preload, self.max_ports, self.rb);
         let max_ports_last = self.max_ports_last;
+        let bulk = self.bulk;
         let o2 = obs.clone();
         let kinds2 = kinds.clone();
         let root = async move {
@@ -595,7 +606,8 @@ impl Scenario for HalvesScenario {
                 halves.push(h);
                 counters.push(c);
             }
-            let value = place(halves, shape);
+            let mut value = place(halves, shape);
+            value.bulk = (0..bulk).map(|i| (i % 251) as u8).collect();
             let mut tasks = Vec::new();
             for c in counters {
                 let o3 = o2.clone();
@@ -753,11 +765,11 @@ impl Scenario for HalvesScenario {
 }
 
 fn mk(kinds: Vec<HK>, shape: u8, hops: u8, preload: bool, max_ports: u32, rb: u32) -> Arc<dyn Scenario> {
-    Arc::new(HalvesScenario { kinds, shape, hops, preload, max_ports, max_ports_last: max_ports, rb })
+    Arc::new(HalvesScenario { kinds, shape, hops, preload, max_ports, max_ports_last: max_ports, rb, bulk: 0 })
 }
 
 fn mk_last(kinds: Vec<HK>, shape: u8, hops: u8, max_ports_last: u32) -> Arc<dyn Scenario> {
-    Arc::new(HalvesScenario { kinds, shape, hops, preload: false, max_ports: 64, max_ports_last, rb: 256 })
+    Arc::new(HalvesScenario { kinds, shape, hops, preload: false, max_ports: 64, max_ports_last, rb: 256, bulk: 0 })
 }
 
 pub fn grid(tier: Tier) -> Vec<Arc<dyn Scenario>> {
@@ -772,6 +784,12 @@ pub fn grid(tier: Tier) -> Vec<Arc<dyn Scenario>> {
         }
         out.push(mk(vec![k], 0, 1, true, 64, 256));
         out.push(mk(vec![k], 0, 2, true, 64, 9));
+    }
+    // a half in front of bulk data that pushes the value over max_data_size (serialized twice: buffered attempt, then streamed)
+    for k in ALL_KINDS {
+        for (shape, hops) in [(0u8, 1u8), (3, 1), (1, 2)] {
+            out.push(Arc::new(HalvesScenario { kinds: vec![k], shape, hops, preload: false, max_ports: 64, max_ports_last: 64, rb: 256, bulk: 6000 }));
+        }
     }
     // two halves: all ordered pairs
     for a in ALL_KINDS {
